@@ -47,12 +47,13 @@ pub struct ExploreStats {
     pub conflicting_execs: u64,
     pub timer_fires: u64,
     pub spurious_wakes: u64,
+    pub late_wakes: u64,
 }
 
 pub fn cost(kind: AltKind, mode: Mode) -> u32 {
     match kind {
         AltKind::Default => 0,
-        AltKind::Preempt | AltKind::Timer | AltKind::Waiter | AltKind::Spurious => 1,
+        AltKind::Preempt | AltKind::Timer | AltKind::Waiter | AltKind::Spurious | AltKind::Late => 1,
         AltKind::Switch => match mode {
             Mode::Chess => 0,
             Mode::Strict => 1,
@@ -132,4 +133,5 @@ pub fn account(stats: &mut ExploreStats, res: &RunResult, node: &Node) {
     }
     stats.timer_fires += res.timer_fires;
     stats.spurious_wakes += res.spurious_wakes;
+    stats.late_wakes += res.late_wakes;
 }
